@@ -591,7 +591,12 @@ func (s *Service) restoreTopic(topic string) error {
 func (s *Service) RestoreTopic(topic string) error {
 	s.mu.Lock()
 	defer s.mu.Unlock()
-	return s.restoreTopic(topic)
+	if err := s.restoreTopic(topic); err != nil {
+		return err
+	}
+	// Restored: the next Collect must not restore (and overwrite) it again.
+	delete(s.closedTopics, topic)
+	return nil
 }
 
 func (s *Service) CloseTopic(topic string) error {
